@@ -9,6 +9,20 @@ namespace Sst
 def sizeBound (opt : WOpts) (es : List (Bytes × Bytes)) : Nat :=
   (es.map (fun e => 2 * e.1.length + e.2.length + 64)).sum + (TableBuilder.filterKey opt.filter).length + 1024
 
+/-- what the bridge to the independent decoder (`Spec.Format`, C05) needs and `TableImg.WF` does not
+    give: every table block is accepted by the independent block parser (with the reader's entries
+    and restart array), and handles / footer are the canonical encodings -/
+structure SpecExtras (t : TableImg) : Prop where
+  dataParse : ∀ d ∈ t.blocks,
+    Spec.Format.parseBlock d.blk.contents = some { entries := d.blk.kvs, restarts := d.blk.rs }
+  indexParse : Spec.Format.parseBlock t.index.contents = some { entries := t.index.kvs, restarts := t.index.rs }
+  metaParse : Spec.Format.parseBlock t.metaix.contents = some { entries := t.metaix.kvs, restarts := t.metaix.rs }
+  hvalEnc : ∀ d ∈ t.blocks, d.hval = d.handle.encode
+  footerEnc : t.img.drop (t.img.length - 48) = (Footer.mk t.metaHandle t.indexHandle).encode
+  /-- metaindex values are canonical handles of blocks stored uncompressed -/
+  metaValEnc : ∀ e ∈ t.metaix.kvs, ∃ h : BlockHandle, e.2 = h.encode ∧ h.offset + h.size ≤ t.img.length
+    ∧ ∀ c, blockAt t.img h = .ok c → c.length = h.size
+
 namespace BL
 
 /-! ### generic list facts -/
@@ -158,6 +172,18 @@ theorem parse_block {opt : WOpts} (hok : WOptsOK opt) {bb : BlockBuilder} {kvs :
   unfold tableBlockAt
   rw [blockAt_stored hok _ hlen]
   simp only [isWellFormed_complete _ _ _ hwf, if_true]
+
+/-- a block builder's output is accepted by the independent decoder, which reads what the reader's
+    parse witness says -/
+theorem parse_block_spec {ri : Nat} {bb : BlockBuilder} {kvs : List (Bytes × Bytes)}
+    (hinv : BlockBuild.Inv ri bb kvs) (hsz : SzB bb kvs) (hlen : bb.finish.length < 2 ^ 32)
+    (p : PBlock) (hc : p.contents = bb.finish) (hwf : p.WF) :
+    Spec.Format.parseBlock p.contents = some { entries := p.kvs, restarts := p.rs } := by
+  have h := SBC.finish_parse ri bb kvs hinv hsz.2 hlen
+  rw [← hc] at h
+  have := parseBlock_eq_of_wf p.contents p.es p.rs hwf.1 hwf.2 _ h
+  rw [h, this]
+  rfl
 
 /-! ### filter events -/
 
